@@ -387,3 +387,29 @@ def emptysub_jobs(tmp, opts=0):
         for d in range(8):
             out.append({"font": p, "cps": [ord(c) for c in t], "dir": d, "opts": opts, "ppm": 12 if d % 2 else 0, "id": "emptysub:%d:d%d" % (k, d)})
     return out
+
+
+def twolevel_font(tmp):
+    """tests/fonts/underflow.ttf declares two justification levels with all-zero records; here both levels take stretch,
+    shrink and weight from glyph attribute 1, so that gr_seg_justify really hands out space at the second level
+    (per-slot justification data of more than one level; no shipped font does that)."""
+    from fontgen import sfnt
+    p = os.path.join(tmp, "underflow_twolevel.ttf")
+    if os.path.exists(p):
+        return p
+    S = sfnt.Sfnt(os.path.join(F, "underflow.ttf"))
+    t = {k: S.table(k) for k in S.order}
+    silf = bytearray(t["Silf"])
+    ver = int.from_bytes(silf[0:4], "big")
+    q = 4 + (4 if ver >= 0x00030000 else 0)
+    sub = int.from_bytes(silf[q + 4:q + 8], "big")
+    hdr = sub + (8 if ver >= 0x00030000 else 0)
+    numj = silf[hdr + 19]
+    if numj < 2:
+        return None
+    for i in range(numj):
+        r = hdr + 20 + 8 * i
+        silf[r + 0] = 1; silf[r + 1] = 1; silf[r + 3] = 1
+    t["Silf"] = bytes(silf)
+    open(p, "wb").write(sfnt.build_sfnt(t))
+    return p
